@@ -19,8 +19,10 @@ OBSERVERS = ('Container.get_volume', 'Container.get_concentration')
 
 
 def run(ctx):
-    from .configtime import no_state_outside_objects as _no_state
-    _no_state(ctx, 'C18.R4', classes=None)
+    from .c03 import rounded_stock_compare as _stock
+    _stock(ctx, 'C18.R3')
+    from .configtime import derived_values as _derived
+    _derived(ctx, 'C18.R4', ('Container', 'Plate', 'PlateSlicer', 'Slicer', 'Recipe', 'RecipeStep', 'Unit', 'Substance'))
     from .configtime import config_file_precedence as _cfgfile
     _cfgfile(ctx, 'C18.R4')
     # per-well amounts gathered with numpy.vectorize need an explicit result type: without it the type of the first
